@@ -83,6 +83,16 @@ def h_spline(ctx):
     # 2-D query arrays keep their shape
     pred2 = sp.predict((e.reshape((1, nobs)), n.reshape((1, nobs))))
     ctx.claim("prediction keeps a 2-D query shape", np.shape(pred2) == (1, nobs))
+    if cfg.get("fquery"):
+        # Fortran-ordered 2x2 query built from the observation points and two of their mirror images
+        q4e = np.array([[e[0], e[1 % nobs]], [-e[0], -e[1 % nobs]]], dtype=object if ctx.sym else float)
+        q4n = np.array([[n[0], n[1 % nobs]], [-n[0], -n[1 % nobs]]], dtype=object if ctx.sym else float)
+        pf = sp.predict((np.asfortranarray(q4e), np.asfortranarray(q4n)))
+        pc = sp.predict((q4e.ravel(), q4n.ravel()))
+        ctx.claim("Fortran-ordered query keeps its shape", np.shape(pf) == (2, 2))
+        if np.shape(pf) == (2, 2):
+            for k, idx in enumerate(np.ndindex(2, 2)):
+                ctx.claim("value [i, j] belongs to query point [i, j] whatever the memory layout", eq(pf[idx], pc[k]))
     if cfg.get("shift"):
         a, b = ctx.real("a"), ctx.real("b")
         jac2 = sp.jacobian((e + a, n + b), (fe + a, fn + b))
@@ -151,6 +161,15 @@ def h_trend(ctx):
     ctx.claim("prediction has the query shape", np.shape(pred) == (1, npts))
     for p in range(npts):
         ctx.claim("predict = polynomial with coef_ over the documented monomial order", eq(pred[0, p], sum(coef[c] * e[p] ** i * n[p] ** j for c, (i, j) in enumerate(exp))))
+    if d <= 2:
+        # 2-D query arrays that are not C-contiguous (Fortran order, transposed view): same logical result
+        qe, qn = ctx.reals("qe", (2, 2)), ctx.reals("qn", (2, 2))
+        for how, (ae, an) in (("Fortran-ordered", (np.asfortranarray(qe), np.asfortranarray(qn))), ("transposed view", (np.ascontiguousarray(qe.T).T, np.ascontiguousarray(qn.T).T))):
+            pq = tr.predict((ae, an))
+            ctx.claim("prediction keeps the 2-D query shape for every memory layout", np.shape(pq) == (2, 2))
+            if np.shape(pq) == (2, 2):
+                for idx in np.ndindex(2, 2):
+                    ctx.claim("value [i, j] belongs to query point [i, j] whatever the memory layout of the query arrays", eq(pq[idx], sum(coef[c] * qe[idx] ** i * qn[idx] ** j for c, (i, j) in enumerate(exp))))
     try:
         vt.polynomial_power_combinations(-1)
         ctx.claim("negative degree rejected", False)
@@ -239,7 +258,7 @@ HARNESSES = [
     Harness(
         "spline_jacobian_predict",
         h_spline,
-        lambda tier, seed: [{"nobs": 2, "nforce": 2}, {"nobs": 1, "nforce": 1, "shift": True}] + ([{"nobs": 2, "nforce": 3}, {"nobs": 2, "nforce": 1, "shift": True}] if tier == "thorough" else []),
+        lambda tier, seed: [{"nobs": 2, "nforce": 2}, {"nobs": 1, "nforce": 1, "shift": True, "fquery": True}] + ([{"nobs": 2, "nforce": 3}, {"nobs": 2, "nforce": 1, "shift": True}] if tier == "thorough" else []),
         bounds="1-2 observation points x 1-3 force points, all coordinates, forces and mindist >= 0 symbolic; translation by a symbolic vector",
         engine={"oneshot": True, "timeout_ms": 30000, "keyed_sqrt": True},
         timeout_s=600,
